@@ -107,7 +107,7 @@ func appliedTransforms(s *container.Stream, chain string) (applied []string, cop
 	return
 }
 
-var numRe = regexp.MustCompile(`[0-9]+`)
+var numRe = regexp.MustCompile(`\b[0-9a-fA-F]*[0-9][0-9a-fA-F]*\b`)
 
 func errClass(err error) string {
 	if err == nil {
@@ -410,6 +410,14 @@ func c01(run *core.Run, replay string) {
 		add(rtCase{Cfg: kz.Cfg{Transform: "NONE", Entropy: "NONE", BlockSize: 160 << 20, Jobs: 1}, Shape: "periodic", Size: 160 << 20, Seed: S, HintMode: "exact", DecJobs: 1})
 	} else {
 		add(rtCase{Cfg: kz.Cfg{Transform: "BWT", Entropy: "ANS0", BlockSize: 4<<20 + 16, Jobs: 4, Checksum: 32}, Shape: "text", Size: 5<<20 + 5, Seed: S, HintMode: "exact", DecJobs: 3, Target: "BWT"})
+	}
+	// one > 4 MiB BWT block decoded with every per-block job count 1..8 (the inverse BWT splits its 8 chunks among the
+	// jobs the reader grants to the block, which exceeds 1 only when the header carries the size hint)
+	for dj := uint(1); dj <= 8; dj++ {
+		if !run.Thorough() && (dj == 2 || dj == 4 || dj == 8) {
+			continue
+		}
+		add(rtCase{Cfg: kz.Cfg{Transform: "BWT", Entropy: "NONE", BlockSize: 8 << 20, Jobs: 1, Checksum: []uint{0, 32}[dj%2]}, Shape: "html", Size: 4<<20 + 300000, Seed: S, HintMode: "exact", DecJobs: dj, Target: "BWT"})
 	}
 	cases := make([]any, len(tcs))
 	for i := range tcs {
